@@ -38,7 +38,8 @@ def build_cases(ctx):
     n_stmt = ctx.n(70, 900)
     n_qs = ctx.n(25, 300)
     where = [("single", 0)] * 3 + [("tri", 0), ("tri", 1), ("tri", 2)] * 2 + [("duo", 0), ("duo", 1), ("lonely", 0),
-                                                                               ("bad", 0), ("failpeer", 0), ("blockpeer", 0)]
+                                                                               ("bad", 0), ("failpeer", 0), ("blockpeer", 0),
+                                                                               ("unk1", 0), ("unk1", 0), ("unk3", 0), ("unk3", 1)]
     # ---- phase 1: every cluster intact
     for _ in range(n_stmt):
         cl, node = rng.choice(where)
@@ -49,6 +50,14 @@ def build_cases(ctx):
         for sql in ("SELECT * FROM nn", "SELECT k AS a, s AS a FROM t", "SELECT CAST(k AS DOUBLE) / 0 AS z FROM t"):
             cases.append(stmt(cl, 0, sql, ["format=json", "format=csv", "format=arrow&distributed=0", "distributed=1&format=json",
                                            "distributed=0&format=csv"], "quirk"))
+    # a peer that discovery has listed but no probe has reached (Unknown): it is not a member that is up.  Next to it alone
+    # (unk1) auto answers locally with "only one cluster member is up"; with one Up peer beside it (unk3) auto distributes
+    # over exactly the two Up members and the Unknown one is sent nothing
+    for cl, node in (("unk1", 0), ("unk3", 0), ("unk3", 1)):
+        for sql in (AGG, SQL0, "SELECT id, s FROM big WHERE id >= 5000", "SELECT DISTINCT g FROM big"):
+            c = stmt(cl, node, sql, ["", "format=json", "format=csv&distributed=auto", "distributed=0&format=json"], "unknown-peer")
+            c["expect_dist_ok"] = True
+            cases.append(c)
     # the no-fallback situations, by construction: a peer that is up (answers /healthz) but fails its fragment
     for cl in ("bad", "failpeer", "blockpeer"):
         for sql in (AGG, "SELECT id FROM big WHERE id < 10"):
@@ -125,6 +134,9 @@ def units_of(cases, outs):
             e_local = fd.run_term_of_local(local)
             if c.get("expect_dist_fail"):
                 e_dist = "(RunErr KOther)"
+            elif c.get("expect_dist_ok"):
+                # every member that is Up is healthy here: a distributed run over the Up members yields what the engine yields
+                e_dist = e_local
             else:
                 f = find_mode_request(o, "force")
                 e_dist = fd.run_term_of_response(f) if f is not None else "RunOk"
@@ -161,7 +173,7 @@ def unit_term(u):
         modelled = fd.rows_ok(h, local, view)
         t = ("(let e := %s in let rq := %s in let o := %s in "
              "[response_eqb o (sql_handler rq e) && %s; "
-             "match dist_mode_parse (r_query rq) with Some m => spec_ok m e o %s | None => negb (is_rows o) end; "
+             "match dist_mode_parse (r_query rq) with Some m => spec_ok m e (request_valid rq) o %s | None => negb (is_rows o) end; "
              "match o with RespRows f _ _ => (known_encoding f %s =? %d) | _ => true end])"
              % (u["env"], rq, obs, blit(modelled), blit(exact), shape,
                 {None: 0, "json-duplicate-column-names": 1, "json-non-finite-double": 2, "csv-empty-string": 3}[fd.encoding_class(h, local)]))
@@ -174,7 +186,7 @@ def unit_term(u):
         obs, _ = fd.response_term(h, {"plan_error": None})
         rq = "(mkReq %s %s %s %s true)" % (fd.bl("format=json&distributed=0"), zlit(body_len(c["body"])), blit(c["utf8"]), blit(c["blank"]))
         e = "(mkEnv Loaded 1 true RunOk RunOk)"
-        return "(let o := %s in [response_eqb o (sql_handler %s %s); spec_ok Off %s o true; true])" % (obs, rq, e, e), 0
+        return "(let o := %s in let rq := %s in [response_eqb o (sql_handler rq %s); spec_ok Off %s (request_valid rq) o true; true])" % (obs, rq, e, e), 0
     if u["kind"] == "fragment":
         c, o = u["case"], u["out"]
         st = o.get("status")
@@ -203,6 +215,15 @@ def evaluate(ctx, cases):
                 c = u["case"]
                 if c.get("expect_dist_fail") and u["h"].get("status") == 200 and u["h"]["headers"].get("x-qe-distributed") == "true":
                     k = False
+                # fragments go to members that are Up and to no one else
+                hd = u["h"].get("headers", {})
+                if u["h"].get("silent_fragments", 0) != 0:
+                    k = False
+                    u["why"] = ("this request sent %d fragment(s) to a peer that is not Up (status Unknown: listed by discovery, never reached "
+                                "by a probe); members %s" % (u["h"]["silent_fragments"], u["out"]["members"].get("status")))
+                if u["h"].get("status") == 200 and hd.get("x-qe-distributed") == "true" and hd.get("x-qe-shards") != str(u["out"]["members"]["up"]):
+                    k = False
+                    u["why"] = "x-qe-shards=%s but %d members are up" % (hd.get("x-qe-shards"), u["out"]["members"]["up"])
         eq.append(e)
         ok.append(k)
     return outs, units, eq, ok
@@ -224,13 +245,24 @@ def run(ctx):
     dist = {"not_ready_503": 0, "auto_distributed": 0, "auto_local_one_member": 0, "auto_local_unplannable": 0,
             "force_distributed": 0, "force_error": 0, "off_local": 0, "no_fallback_errors": 0, "param_400": 0,
             "error_responses": 0, "unstable_membership_skipped": 0, "formats": {"arrow": 0, "json": 0, "csv": 0},
-            "rows_over_4096": 0, "empty_results": 0, "clusters": {}, "known_class_units": {}}
+            "rows_over_4096": 0, "empty_results": 0, "clusters": {}, "known_class_units": {},
+            "membership_state(up incl. self, unknown, down)": {}, "auto_local_beside_unknown_peer": 0,
+            "auto_distributed_over_up_members_with_unknown_peer_listed": 0, "fragments_sent_to_unknown_peers": 0}
     for u in sqlu:
         h, o = u["h"], u["out"]
         st = h.get("status")
         hd = h.get("headers", {})
         cl = u["case"]["cluster"]
         dist["clusters"][cl] = dist["clusters"].get(cl, 0) + 1
+        ms = o.get("members") or {}
+        mk = "up=%s unknown=%s down=%s" % (ms.get("up"), ms.get("unknown"), ms.get("down"))
+        dist["membership_state(up incl. self, unknown, down)"][mk] = dist["membership_state(up incl. self, unknown, down)"].get(mk, 0) + 1
+        dist["fragments_sent_to_unknown_peers"] += o.get("silent_fragments", 0) if u["hi"] == 0 else 0
+        if ms.get("unknown") and st == 200:
+            if hd.get("x-qe-distributed-skipped") == "only one cluster member is up":
+                dist["auto_local_beside_unknown_peer"] += 1
+            elif hd.get("x-qe-distributed") == "true":
+                dist["auto_distributed_over_up_members_with_unknown_peer_listed"] += 1
         if not u["stable"]:
             dist["unstable_membership_skipped"] += 1
         if st == 503:
@@ -269,7 +301,7 @@ def run(ctx):
                     "members": u["out"]["members"], "plannable": u["out"]["plannable"], "status": u["h"].get("status"),
                     "headers": u["h"].get("headers"), "error": u["h"].get("error"), "model_env": u["env"]})
     slim = [{"i": i, "kind": u["kind"], "case": {k: v for k, v in u["case"].items()}, "request": u.get("h", {}).get("qs"),
-             "env": u.get("env")} for i, u in enumerate(units)]
+             "env": u.get("env"), "members": (u.get("out") or {}).get("members"), "why": u.get("why")} for i, u in enumerate(units)]
     impl = [({"response": {k: v for k, v in u["h"].items() if k != "decoded"}, "decoded": {k: (v if k != "bag" else {kk: vv for kk, vv in v.items() if kk != "rows" or len(vv) <= 12}) for k, v in (u["h"].get("decoded") or {}).items()},
               "local": {k: v for k, v in u["local"].items() if k not in ("bag", "csv_bag", "json_bag")}, "members": u["out"].get("members"),
               "plannable": u["out"].get("plannable")} if u["kind"] == "sql" else u["out"]) for u in units]
@@ -278,7 +310,8 @@ def run(ctx):
         ctx.proof_broken_violation(f"{len(units)} front-door requests against real nodes, none violates the executable spec")
     return ctx.finish(
         rule="REAL nodes spawned once per run (single, 3-node, 2-node, dead-peer, failed-load peer, still-loading peer, peer with "
-             "another copy of `big`); seeded statements over three Parquet tables (rows, >4096 rows, empty, exactly-mergeable "
+             "another copy of `big`, and peers that discovery lists but no probe reaches - status Unknown - alone and next to an Up peer: a "
+             "test-owned socket that never answers /healthz, answers 500 to /fragment and counts the fragments it is sent); seeded statements over three Parquet tables (rows, >4096 rows, empty, exactly-mergeable "
              "aggregates, unmergeable shapes, no base table, errors, shapes the text encodings cannot carry) x {auto, force, local} "
              "spelled variously x {arrow, json, csv}; random query strings around distributed=/format=; empty / blank / non-UTF-8 / "
              "oversized bodies; /fragment on ready and not-ready nodes; then the loading node is released and peers are killed. "
@@ -288,7 +321,10 @@ def run(ctx):
                      "reference for `rows the engine returned`; aggregates are over integer columns only, so distributed and local "
                      "answers are bitwise comparable",
                      "e_dist (what the distributed run yields) is read off the force request of the same case, or fixed by "
-                     "construction for the peers that must fail their fragment",
+                     "construction for the peers that must fail their fragment (error) and for the clusters whose Up members are all "
+                     "healthy (= the engine's own result); members_up = self + peers last seen Up (harness reads Membership::members())",
+                     "fragments must reach Up members only: the silent peer's fragment counter must stay 0 and x-qe-shards must equal "
+                     "the number of Up members",
                      "arrow's IPC/JSON/CSV writers and the harness's readers (arrow IPC reader, serde_json, an RFC 4180 reader written "
                      "in harness/src/frontdoor.rs) are external to the model; bodies are tied by decoding, not by modelling the writers",
                      "timeouts, TLS, concurrent requests and shutdown draining are out of scope"])
